@@ -33,6 +33,9 @@ def run_property(prop: str, tier: str, root: str | None = None, write: bool = Tr
         mod = importlib.import_module(f"pstatic.rules.{prop.lower()}")
         E = Engine(root)
         extra = mod.run(E, rep, tier) or {}
+        from pstatic import unused
+
+        extra = {**extra, "unused": unused.check(E, rep, prop)}
         from pstatic import canaries
 
         canaries.run_for(prop, rep)
